@@ -70,17 +70,19 @@ def run (α : Type) [Scalar α] [Codec α] (op : String) (c : Ctx) : Option (Rd 
       let census := (List.range 13).map fun k => Int.ofNat (facesOfSize e k)
       pure s!"{Out.bools bs} i{numV e} i{numE2 e} i{numF e} i{vol6 e} {Out.ints census}"
   | "c18.table" => some do
-      -- in: which (0 platonic, 1 archimedean, 2 catalan, 3 johnson, 4 plain), name, verts faces
+      -- in: which (0 platonic, 1 archimedean, 2 catalan, 3 johnson, 4 plain), name, short, verts faces
       -- out: the per-table obligation and its textbook part
       let which ← Rd.nat c
       let name ← rdStr c
+      let short ← rdStr c
       let e0 ← rdEntry c
-      let e := { e0 with name := name }
+      let e := { e0 with name := name, short := short }
       let rows := match which with
         | 0 => Textbook.platonic | 1 => Textbook.archimedean | 2 => Textbook.catalan | _ => []
       let ok := match which with
         | 0 => platonicOk e | 1 => archimedeanOk e | 2 => catalanOk e | 3 => johnsonOk e | _ => plainOk e
-      pure s!"{Out.bool ok} {Out.bool (textbookOk rows e)}"
+      let tb := if which = 3 then johnsonCountsOk e else textbookOk rows e
+      pure s!"{Out.bool ok} {Out.bool tb}"
   | "c18.same" => some do
       -- in: verts verts ; out: sameVerts
       let a ← Rd.list c (rdP3 c)
@@ -90,7 +92,8 @@ def run (α : Type) [Scalar α] [Codec α] (op : String) (c : Ctx) : Option (Rd 
       -- in: which ; out: the hand-entered rows of Spec/Textbook.lean
       let which ← Rd.nat c
       let rows := match which with
-        | 0 => Textbook.platonic | 1 => Textbook.archimedean | _ => Textbook.catalan
+        | 0 => Textbook.platonic | 1 => Textbook.archimedean | 2 => Textbook.catalan
+        | _ => Textbook.johnson
       pure (" ".intercalate (s!"i{rows.length}" :: rows.map outSolid))
   | "c18.family" => some do
       -- in: records, query ; out: names-iteration (class, payload)*, then get_shape(query)
